@@ -20,7 +20,7 @@ MENUS = [
     ("transformer", [None, "z-score", "yeo-johnson"]),
     ("clip", [5.0, 1.0, 0.5]),
     ("spread", [0.0, 0.01]),
-    ("rate", [None, "series"]),
+    ("rate", [None, "series", "sparse"]),
     ("bounds", [None, "start", "end", "endhol", "starthol"]),
     ("folds", [None, "two"]),
     ("delay", [1, 0]),
@@ -61,8 +61,10 @@ def tables(cfg, ndays=14, start="2022-01-10"):
     elif cfg["nan"] == "leadingY":
         Y.iloc[0, :] = np.nan
     rate = None
-    if cfg["rate"] == "series":
+    if cfg["rate"] in ("series", "sparse"):
         rate = pd.Series(0.01 + 0.002 * np.arange(len(idx)), index=idx, name="rf")
+        if cfg["rate"] == "sparse":
+            rate = rate.iloc[[0, 1, 4, 5, 9, len(idx) - 1]]       # fixings published on some dates only
     return X, Y, rate, idx
 
 
@@ -97,7 +99,7 @@ def holidays():
 _HOL = []
 
 
-def check_point(env, cfg, Xin, Yin, rate, obs, prev_now, first):
+def check_point(env, cfg, Xin, Yin, rate, obs, prev_now, first, first_now=None):
     """One observation point (after reset or a step)."""
     if not _HOL:
         _HOL.append(holidays())
@@ -154,8 +156,17 @@ def check_point(env, cfg, Xin, Yin, rate, obs, prev_now, first):
     else:
         r = rate.loc[:now]
         r = r[r.index >= env.Y.index[0]]
-        if len(r) and not close(rbook.mid_price, r.iloc[-1], 1e-12):
-            msgs.append("reference rate on %s is %r, given %r" % (now.date(), rbook.mid_price, r.iloc[-1]))
+        first_step = pd.Timestamp(min(env._transmitter.timesteps)) if first_now is None else first_now
+        if len(r):
+            ok = close(rbook.mid_price, r.iloc[-1], 1e-12)
+            # a fixing published before the episode's first step need not have been replayed (markov reset / warm-up
+            # horizon): the seeded 0 is then accepted too.  A rate dated AFTER now is never acceptable.
+            if not ok and r.index[-1] < first_step and rbook.mid_price == 0.0:
+                ok = True
+            if not ok:
+                msgs.append("reference rate on %s is %r, last given fixing (%s) %r" % (now.date(), rbook.mid_price, r.index[-1].date(), r.iloc[-1]))
+        elif rbook.mid_price != 0.0:
+            msgs.append("reference rate on %s is %r although no fixing has been published yet" % (now.date(), rbook.mid_price))
     return msgs
 
 
@@ -194,7 +205,8 @@ def run_config(cfg):
             msgs.append("reset(%s) raised %r" % (fold, ex))
             break
         prev = None
-        msgs += ["%s reset: %s" % (fold, m) for m in check_point(env, cfg, Xin, Yin, rate, obs, prev, True)]
+        first_now = pd.Timestamp(env.now())
+        msgs += ["%s reset: %s" % (fold, m) for m in check_point(env, cfg, Xin, Yin, rate, obs, prev, True, first_now)]
         prev = pd.Timestamp(env.now())
         k = 0
         n = len(env.Y.columns)
@@ -206,7 +218,7 @@ def run_config(cfg):
                 msgs.append("%s step %d raised %r" % (fold, k, ex))
                 break
             nsteps += 1
-            msgs += ["%s step %d: %s" % (fold, k, m) for m in check_point(env, cfg, Xin, Yin, rate, obs, prev, False)]
+            msgs += ["%s step %d: %s" % (fold, k, m) for m in check_point(env, cfg, Xin, Yin, rate, obs, prev, False, first_now)]
             prev = pd.Timestamp(env.now())
             k += 1
         if msgs:
